@@ -8,6 +8,7 @@ structure St where
   heap : Heap := #[]
   vars : List (Nat × Val) := []
   uid : Nat := 0
+  cloned : Bool := false   -- CloneWithPrefixMessage shares the rest of a chain: links then need not point forward
 
 def St.get (s : St) (k : Nat) : Val := match s.vars.lookup k with | some v => v | none => .nilIface
 
@@ -50,8 +51,10 @@ def valDesc (s : St) (v : Val) : String :=
       (if errorOrNil s.heap v == .nilIface then "z" else "n") ++ "|" ++
       ";".intercalate ((wrappedErrors s.heap id).map (nodeDesc s.heap)) ++ "]"
 
+/-- every variable, observed; plus an alarm if a heap built without `clone` breaks the invariant the theorems assume -/
 def dump (s : St) : String :=
-  " ".intercalate (s.vars.map (fun p => "v" ++ toString p.1 ++ ":" ++ valDesc s p.2))
+  " ".intercalate (s.vars.map (fun p => "v" ++ toString p.1 ++ ":" ++ valDesc s p.2)) ++
+    (if !s.cloned && !wfb s.heap then " !heap-invariant-broken" else "")
 
 def assign (s : St) (k : Nat) (h : Heap) (v : Val) : St × String :=
   let s' := { s with heap := h, vars := insertVar k v s.vars }
@@ -103,7 +106,7 @@ def exec (s : St) (k : Nat) (op : String) (args : List String) : St × String :=
     | none => (s, "bad-op")
   | "clone", [a, m] =>
     match varIx? a, strOfHex? m with
-    | some a, some m => let r := clone s.heap (s.get a) m; assign s k r.1 r.2
+    | some a, some m => let r := clone s.heap (s.get a) m; assign { s with cloned := true } k r.1 r.2
     | _, _ => (s, "bad-op")
   | _, _ => (s, "bad-op")
 
